@@ -46,6 +46,23 @@ Lemma lsoda_args_inst_3 (regime ph fb : Z) (pars Fd o f : RL) (t0 t1 : R) :
   = problem_view (@lsoda_problem_of NumR Fd {| sn_o := @chunks9 NumR o 3; sn_f := f |} t0 t1).
 Proof. intros HF Ho Hf. explode Fd HF. explode o Ho. explode f Hf. unfold k_lsoda_args_n3. args_tac. Qed.
 
+(* the argument validation: a malformed call (bad = 1..4) is the leaf Err ValueError -- the translator's adapter has
+   verified on that path that no user callable was evaluated, no integrator constructed, the history untouched --
+   any other call builds the problem instance *)
+Definition res_view (r : res (@lsoda_problem NumR)) : res (R * arr R * R * arr R * R * R) :=
+  match r with Ok P => Ok (problem_view P) | Err e => Err e end.
+
+Lemma update_args_inst_1 (bad regime ph fb : Z) (pars Fd o f : RL) (t0 t1 : R) :
+  length Fd = 9%nat -> length o = 9%nat -> length f = 1%nat ->
+  @k_update_args_n1 NumR bad regime ph fb (A pars) (A Fd) (A o) (A f) t0 t1
+  = res_view (@checked_problem NumR bad Fd {| sn_o := @chunks9 NumR o 1; sn_f := f |} t0 t1).
+Proof.
+  intros HF Ho Hf. explode Fd HF. explode o Ho. explode f Hf.
+  unfold k_update_args_n1, checked_problem, malformed_call.
+  repeat match goal with |- context [Z.eqb bad ?k] => destruct (Z.eqb bad k) end; cbn [orb res_view];
+    first [ reflexivity | (f_equal; args_tac) ].
+Qed.
+
 (* the caller's own tolerances / step sizes reach LSODA unchanged; t0, y0, t_bound as before *)
 Lemma lsoda_args_user_inst_1 (Fd o f : RL) (t0 t1 ua ur uf umx umn : R) :
   length Fd = 9%nat -> length o = 9%nat -> length f = 1%nat ->
